@@ -245,13 +245,15 @@ Proof.
   - split; [exists h; split; [exact Hi|left; reflexivity]|split; reflexivity].
   - split; [exists h; split; [exact Hi|left; reflexivity]|split; reflexivity].
   - (* ClusterSet *)
-    destruct (sget u (sums s)); simpl.
-    { split; [exists h; split; [exact Hi|left; reflexivity]|split; reflexivity]. }
-    split; [exists h; split; [exact Hi|left; reflexivity]|]. split; [reflexivity|].
-    intros u' _. unfold count_of; simpl. destruct (sget u (cnts s)) eqn:Ec; [reflexivity|].
-    destruct (String.eqb_spec u u') as [->|Hne].
-    + rewrite (alookup_aset_same String.eqb String.eqb_eq), Ec. reflexivity.
-    + rewrite (alookup_aset_other String.eqb String.eqb_eq); [reflexivity|exact Hne].
+    assert (HC : forall u', count_of u' i (mkSt (now s) (hb s) (conds s) (sums s)
+                   (match sget u (cnts s) with Some _ => cnts s | None => aset String.eqb u ([], 0) (cnts s) end) (lister s))
+                 = count_of u' i s).
+    { intros u'. unfold count_of; simpl. destruct (sget u (cnts s)) eqn:Ec; [reflexivity|].
+      destruct (String.eqb_spec u u') as [->|Hne].
+      - rewrite (alookup_aset_same String.eqb String.eqb_eq), Ec. reflexivity.
+      - rewrite (alookup_aset_other String.eqb String.eqb_eq); [reflexivity|exact Hne]. }
+    destruct (sget u (sums s)); simpl;
+      (split; [exists h; split; [exact Hi|left; reflexivity]|]; split; [reflexivity|]; intros u' _; apply HC).
 Qed.
 
 Lemma lister_step c lf ah s o u :
@@ -336,12 +338,14 @@ Proof.
     destruct (str_mem i _); [congruence|]. apply (HC u i). exact H.
   - exact HC.
   - exact HC.
-  - destruct (sget u (sums s)); simpl; [exact HC|].
-    intros u' i H. apply (HC u' i). unfold count_of in *; simpl in H.
-    destruct (sget u (cnts s)) eqn:Ec; [exact H|].
-    destruct (String.eqb_spec u u') as [->|Hne].
-    + rewrite (alookup_aset_same String.eqb String.eqb_eq) in H. simpl in H. congruence.
-    + rewrite (alookup_aset_other String.eqb String.eqb_eq) in H; [exact H|exact Hne].
+  - assert (G : forall u' i, match sget u' (match sget u (cnts s) with Some _ => cnts s | None => aset String.eqb u ([], 0) (cnts s) end) with
+                          | Some f => sget i (fst f) | None => None end <> None -> sget i (hb s) <> None).
+    { intros u' i H. apply (HC u' i). unfold count_of.
+      destruct (sget u (cnts s)) eqn:Ec; [exact H|].
+      destruct (String.eqb_spec u u') as [->|Hne].
+      - rewrite (alookup_aset_same String.eqb String.eqb_eq) in H. simpl in H. congruence.
+      - rewrite (alookup_aset_other String.eqb String.eqb_eq) in H; [exact H|exact Hne]. }
+    destruct (sget u (sums s)); simpl; intros u' i H; apply (G u' i); exact H.
 Qed.
 
 Lemma count_of_init c u i : count_of u i (init c) = None.
@@ -427,11 +431,13 @@ Proof.
     destruct (orphan s u); [reflexivity|]. destruct (str_mem i _); [reflexivity|apply F2].
   - split; assumption.
   - split; assumption.
-  - destruct (sget u (sums s)); simpl; [split; assumption|]. split; [exact F1|].
-    intros u'. unfold count_of; simpl. destruct (sget u (cnts s)) eqn:Ec; [apply F2|].
-    destruct (String.eqb_spec u u') as [->|Hne].
-    + rewrite (alookup_aset_same String.eqb String.eqb_eq). reflexivity.
-    + rewrite (alookup_aset_other String.eqb String.eqb_eq); [apply F2|exact Hne].
+  - assert (G : forall u', match sget u' (match sget u (cnts s) with Some _ => cnts s | None => aset String.eqb u ([], 0) (cnts s) end) with
+                          | Some f => sget i (fst f) | None => None end = None).
+    { intros u'. destruct (sget u (cnts s)) eqn:Ec; [apply F2|].
+      destruct (String.eqb_spec u u') as [->|Hne].
+      - rewrite (alookup_aset_same String.eqb String.eqb_eq). reflexivity.
+      - rewrite (alookup_aset_other String.eqb String.eqb_eq); [apply F2|exact Hne]. }
+    destruct (sget u (sums s)); simpl; (split; [exact F1|]; intros u'; apply G).
 Qed.
 
 Lemma quiet_noconds c lf ah s o i : quiet i o -> (forall u, cond_of u i s = None) ->
@@ -509,6 +515,92 @@ Proof.
     + exfalso. apply (H v). left; reflexivity.
     + apply IH; exact Hr.
   - destruct (String.eqb u' u); simpl; [rewrite (IH Hr); reflexivity|apply IH; exact Hr].
+Qed.
+
+(* ------------------------------------------------------------------ losing and regaining the shard *)
+Definition sidle (i : string) (o : sop) : Prop := match o with Op o => idle i o | _ => True end.
+
+Lemma Inv_sstep c lf ah x o : Inv lf (core x) -> Inv lf (core (fst (sstep c lf ah x o))).
+Proof.
+  intros HI. destruct o as [o| |]; simpl.
+  - destruct (lead x).
+    + pose proof (Inv_step c lf ah (core x) o HI) as H. destruct (step c lf ah (core x) o) as [s' r]. exact H.
+    + destruct HI as [I1 [I2 I3]].
+      destruct o as [j|u j q|u j n| | |dt|u|u]; simpl; try (split; [exact I1|split; [exact I2|exact I3]]).
+      * split; [apply aset_nodup; [apply String.eqb_eq|exact I1]|split; [exact I2|exact I3]].
+      * split; [apply filter_keys_nodup; exact I1|split; [exact I2|exact I3]].
+  - destruct (lead x); simpl; exact HI.
+  - destruct (lead x); simpl; exact HI.
+Qed.
+
+(* one step of a history with leadership changes: cache entry and persisted conditions of a live instance *)
+Lemma live_kept_sstep c ah x o i h :
+  Inv true (core x) -> sget i (hb (core x)) = Some h ->
+  (o = Op TickTimeout -> now (core x) <= h + timeout_ms) -> sidle i o ->
+  let x' := fst (sstep c true ah x o) in
+  (exists h', sget i (hb (core x')) = Some h' /\ (h' = h \/ h' = now (core x)))
+  /\ (forall u, (o = Op TickUnknown -> str_mem u (lister (core x)) = true) -> cond_of u i (core x') = cond_of u i (core x)).
+Proof.
+  intros HI Hi Hlive Hidle. destruct o as [o| |]; simpl.
+  - simpl in Hidle. destruct (lead x).
+    + assert (Hl : o = TickTimeout -> now (core x) <= h + timeout_ms) by (intros E; apply Hlive; rewrite E; reflexivity).
+      pose proof (live_kept_step c ah (core x) o i h HI Hi Hl Hidle) as [S1 [S2 _]].
+      destruct (step c true ah (core x) o) as [s' r]. simpl in *. split; [exact S1|].
+      intros u Hu. apply S2. intros E. apply Hu. rewrite E; reflexivity.
+    + destruct HI as [I1 _].
+      destruct o as [j|u j q|u j n| | |dt|u|u]; simpl;
+        try (split; [exists h; split; [exact Hi|left; reflexivity]|intros; reflexivity]).
+      * split; [|intros; reflexivity]. destruct (String.eqb_spec j i) as [->|Hne].
+        -- exists (now (core x)). rewrite (alookup_aset_same String.eqb String.eqb_eq). split; [reflexivity|right; reflexivity].
+        -- exists h. rewrite (alookup_aset_other String.eqb String.eqb_eq); [|exact Hne]. split; [exact Hi|left; reflexivity].
+      * split; [|intros; reflexivity]. exists h. split; [|left; reflexivity].
+        rewrite (alookup_filter_nodup String.eqb String.eqb_eq); [|exact I1]. rewrite Hi. simpl.
+        specialize (Hlive eq_refl). destruct (now (core x) >? h + timeout_ms) eqn:E; [apply Z.gtb_lt in E; lia|reflexivity].
+  - destruct (lead x); simpl; (split; [exists h; split; [exact Hi|left; reflexivity]|intros; reflexivity]).
+  - destruct (lead x); simpl; (split; [exists h; split; [exact Hi|left; reflexivity]|intros; reflexivity]).
+Qed.
+
+Lemma lister_sstep c lf ah x o u :
+  str_mem u (lister (core x)) = true -> o <> Op (ClusterGone u) -> str_mem u (lister (core (fst (sstep c lf ah x o)))) = true.
+Proof.
+  intros Hu Ho. destruct o as [o| |]; simpl.
+  - destruct (lead x).
+    + assert (Ho' : o <> ClusterGone u) by (intros E; apply Ho; rewrite E; reflexivity).
+      pose proof (lister_step c lf ah (core x) o u Hu Ho') as H. destruct (step c lf ah (core x) o) as [s' r]. exact H.
+    + destruct o as [j|u' j q|u' j n| | |dt|u'|u']; simpl; try exact Hu.
+      * apply str_mem_In. apply filter_In. split; [apply str_mem_In; exact Hu|].
+        destruct (String.eqb_spec u u') as [->|Hne]; [exfalso; apply Ho; reflexivity|reflexivity].
+      * destruct (str_mem u' (lister (core x))); [exact Hu|]. simpl. destruct (String.eqb u u'); [reflexivity|exact Hu].
+  - destruct (lead x); simpl; exact Hu.
+  - destruct (lead x); simpl; exact Hu.
+Qed.
+
+Fixpoint slive_along (c : cfg) (ah : bool) (i : string) (x : srv) (ops : list sop) : Prop :=
+  match ops with
+  | [] => True
+  | o :: r => (o = Op TickTimeout -> exists h, sget i (hb (core x)) = Some h /\ now (core x) <= h + timeout_ms)
+              /\ slive_along c ah i (fst (sstep c true ah x o)) r
+  end.
+
+(* over every history in which the replica loses and regains its shard any number of times, with
+   heartbeats arriving while it leads nothing and clean-up passes at any point: an instance whose
+   heartbeat is at most 3 s old at every timeout pass keeps its cache entry and its persisted condition *)
+Lemma takeover_keeps_live c ah i u ops : forall x h,
+  Inv true (core x) -> sget i (hb (core x)) = Some h -> slive_along c ah i x ops -> Forall (sidle i) ops ->
+  str_mem u (lister (core x)) = true -> Forall (fun o => o <> Op (ClusterGone u)) ops ->
+  let x' := srun_state c true ah x ops in
+  (exists h', sget i (hb (core x')) = Some h') /\ cond_of u i (core x') = cond_of u i (core x).
+Proof.
+  induction ops as [|o r IH]; intros x h HI Hi Hl Hid Hu Hg; simpl.
+  - split; [exists h; exact Hi|reflexivity].
+  - simpl in Hl. destruct Hl as [Hl1 Hl2]. inversion Hid as [|? ? Ho Hr]; subst. inversion Hg as [|? ? Hgo Hgr]; subst.
+    assert (Hlive : o = Op TickTimeout -> now (core x) <= h + timeout_ms).
+    { intros E. destruct (Hl1 E) as [h2 [E1 E2]]. rewrite Hi in E1; inversion E1; subst; exact E2. }
+    pose proof (live_kept_sstep c ah x o i h HI Hi Hlive Ho) as [[h' [S1 _]] S2].
+    pose proof (Inv_sstep c true ah x o HI) as HI'.
+    pose proof (lister_sstep c true ah x o u Hu Hgo) as Hu'.
+    destruct (IH _ h' HI' S1 Hl2 Hr Hu' Hgr) as [R1 R2].
+    split; [exact R1|]. rewrite R2. apply S2. intros _; exact Hu.
 Qed.
 
 (* ------------------------------------------------------------------ refutations for the code before the repairs *)
